@@ -81,6 +81,24 @@ Proof.
   eexists. split; [reflexivity|apply select_ctx_enabled].
 Qed.
 
+(** whenever WaitOrSkipRetry decides to wait - the context has no deadline, or one later than the end of the back-off -
+    the wait is the same select over ctx.Done() and the timer: a cancellation during the back-off ends it, whether the
+    context has a deadline or not *)
+Lemma retry_wait_any_ctx delay has_dl until fired :
+  (0 < delay)%Z -> has_dl = false \/ (delay < until)%Z ->
+  exists outs, wait_or_skip delay has_dl until true true fired = (true, Some outs) /\ In WCtxErr outs /\
+               (fired = false -> outs = [WCtxErr]).
+Proof.
+  intros Hd H. unfold wait_or_skip, wait_for_retry.
+  assert (E0 : (delay =? 0)%Z = false) by (apply Z.eqb_neq; lia).
+  assert (E1 : (0 <? delay)%Z = true) by (apply Z.ltb_lt; lia).
+  assert (E2 : (delay <=? 0)%Z = false) by (apply Z.leb_gt; lia).
+  assert (E3 : negb has_dl || (delay <? until)%Z = true).
+  { destruct H as [->|H]; [reflexivity|]. apply orb_true_iff. right. apply Z.ltb_lt. exact H. }
+  rewrite E0, E1, E3, E2. eexists. split; [reflexivity|]. split; [apply select_ctx_enabled|].
+  intros ->. reflexivity.
+Qed.
+
 (** WaitOrSkipRetry never starts a wait that would outlast the context's deadline *)
 Lemma retry_skip_when_deadline_sooner delay until c d f :
   (0 < delay)%Z -> (until <= delay)%Z -> wait_or_skip delay true until c d f = (false, None).
